@@ -422,8 +422,20 @@ impl Property for C12 {
                 let i = t.below(total as u64) as usize;
                 keep.push(plan[i]);
             }
-            keep.push(plan[0]);
-            keep.push(plan[total - 1]);
+            // the first and the last call of every site (e.g. the end-of-file
+            // probe, the final flush) are always tried
+            for site in 0..3u64 {
+                if let Some(f) = plan.iter().find(|p| p.0 == site) {
+                    keep.push(*f);
+                }
+                if let Some(l) = plan.iter().rev().find(|p| p.0 == site) {
+                    keep.push(*l);
+                    // the last call also with a hard kind (kinds rotate by index)
+                    if l.2 == FK_INTERRUPTED {
+                        keep.push((l.0, l.1, FK_OTHER));
+                    }
+                }
+            }
             plan = keep;
         } else {
             ctx.stats.hit("probe.inputs_with_every_fault_index_enumerated");
